@@ -1311,6 +1311,70 @@ func ttlBoundaryProbe(m *meta, rng *rand.Rand, round int) {
 // pairingRace (C11, C05): one writer alternates Set(k, even, 1 ns) and Set(k, odd, 1 h) while four readers call
 // GetWithTTL: every hit must pair a value with the deadline of the same write (odd: close to 1 h; even: at most 1 ns),
 // and no hit may report a negative remaining time.
+// monotonicRace (C02): one writer overwrites key 1 with increasing values through synchronous Set; readers alternate
+// Get(other key) / Get(1) or poll key 1 alone. Each reader's own reads of key 1 never decrease and never fall below
+// the value whose Set had completed before the Get began; once the writer has stopped, Get(1) is the last value, and
+// after a completed Delete(1) it misses. All policies, bounded and unbounded, several resident keys in the one shard.
+func monotonicRace(m *meta, rng *rand.Rand, round int) {
+	pol := pick(rng, []kioshun.EvictionPolicy{kioshun.SieveTinyLFU, kioshun.SieveTinyLFU, kioshun.LRU, kioshun.FIFO, kioshun.LFU})
+	conf := kioshun.Config{MaxSize: pick(rng, []int64{64, 64, 0}), ShardCount: 1, EvictionPolicy: pol}
+	ctx := fmt.Sprintf("monotonic race round %d cfg %+v", round, conf)
+	c, err := kioshun.New[int, int](conf)
+	must(err)
+	defer c.Close()
+	watch(ctx)
+	defer unwatch()
+	for k := 2; k < 10; k++ {
+		c.Set(k, k, kioshun.NoExpiration)
+	}
+	var stop atomic.Bool
+	var bad, done atomic.Int64
+	var wg sync.WaitGroup
+	for g := 0; g < 8; g++ {
+		wg.Add(1)
+		go func(g int) {
+			defer wg.Done()
+			last := int64(0)
+			for i := 0; !stop.Load(); i++ {
+				if g < 6 {
+					c.Get(2 + (g+i)%8)
+				}
+				floor := done.Load()
+				v, ok := c.Get(1)
+				if !ok {
+					continue
+				}
+				if int64(v) < last || int64(v) < floor {
+					if bad.Add(1) <= 2 {
+						m.violate("C02", fmt.Sprintf("%s: one writer overwrites key 1 with 1,2,3,...; a reader that had read %d (and began after Set(1,%d) had returned) then read %d: reads of one key went backwards / returned a value older than a completed Set", ctx, last, floor, v), ctx)
+					}
+				}
+				last = int64(v)
+			}
+		}(g)
+	}
+	n := 0
+	for t0 := time.Now(); n < 20000 && bad.Load() == 0 && time.Since(t0) < 300*time.Millisecond; {
+		n++
+		c.Set(1, n, kioshun.NoExpiration)
+		done.Store(int64(n))
+	}
+	stop.Store(true)
+	wg.Wait()
+	if bad.Load() == 0 {
+		if v, ok := c.Get(1); ok && v != n {
+			m.violate("C02", fmt.Sprintf("%s: the writer's last completed Set was (1,%d), nobody writes any more, Get(1)=(%d,true): a value older than a completed Set", ctx, n, v), ctx)
+		}
+		c.Delete(1)
+		{
+			if v, ok := c.Get(1); ok {
+				m.violate("C02", fmt.Sprintf("%s: Delete(1) completed, nobody writes, Get(1)=(%d,true): a value whose Delete completed before the Get began", ctx, v), ctx)
+			}
+		}
+	}
+	m.count("monotonic_race_rounds")
+}
+
 func pairingRace(m *meta, rng *rand.Rand, round int) {
 	pol := pick(rng, []kioshun.EvictionPolicy{kioshun.SieveTinyLFU, kioshun.SieveTinyLFU, kioshun.LRU, kioshun.FIFO, kioshun.LFU})
 	ctx := fmt.Sprintf("pairing race round %d policy %v", round, pol)
@@ -2323,6 +2387,7 @@ func streamConc(o opts) {
 			tornRace(m, rng, r)
 			pausedReaderProbe(m, rng, r)
 			pairingRace(m, rng, r)
+			monotonicRace(m, rng, r)
 			m.nontrivial(fmt.Sprintf("table/%d", r%16))
 		}
 		if r < 3 {
